@@ -1,6 +1,8 @@
 import RoaringModel.Lemmas.BitmapMut2
 import RoaringModel.Step32
 import RoaringModel.Lemmas.Canonical
+import RoaringModel.Lemmas.Mirror32
+import RoaringModel.Lemmas.MirrorLemmas
 /-!
 # C01 — 32-bit mutation histories have exact set semantics (property theorems)
 
@@ -168,5 +170,91 @@ example : (∀ op ∈ [Op32.insert 7, .insertRange (.incl 65536) (.excl 70000), 
   intro op hop
   simp only [List.mem_cons, List.mem_nil_iff, or_false] at hop
   rcases hop with rfl | rfl | rfl <;> simp [Op32.Valid, u32Max]
+
+/-! ## Fidelity audit (stores): `BitmapStore::insert_range` with the fused middle loop of the Rust
+
+`notes/fidelity-stores-iter32.md`.  `C01_insertRange` rests on the store kernel `BStore.insertRange`, whose multi-word
+arm sums the middle words and then overwrites them (two passes).  The Rust (bitmap_store.rs:148-151) is ONE loop that
+counts a word and overwrites it; `BStore.insertRangeMirror` (`midLoop`) is that loop.  The compiled driver executes
+`BStore.insertRangeExec` wherever the model calls `BStore.insertRange` (`@[csimp]`, an unconditional equality of
+functions, so every theorem of this file is also a theorem about what the driver executes); on every store satisfying
+`BStore.Inv` — all bitset chunks of a `Bitmap.WF` value: `Store.Inv` — and every `u16` range that is the mirrored
+loop. -/
+
+/-- what the compiled driver runs in place of `BStore.insertRange` -/
+theorem C01_driver_runs_insertRange_mirror : @BStore.insertRange = @BStore.insertRangeExec :=
+  BStore.insertRange_eq_exec
+
+/-- the mirrored `insert_range` is the model definition, is what the driver runs, and refines set insertion of the
+    range: invariant kept, bit `x` set iff `x` in `s..=e` or set before, returns the number of *new* values -/
+theorem C01_bstore_insertRange_mirror (b : BStore) (hb : b.Inv) (s e : Nat) (hse : s ≤ e) (he : e < 65536) :
+    b.insertRangeMirror s e = b.insertRange s e
+    ∧ BStore.insertRangeExec b s e = b.insertRangeMirror s e
+    ∧ (b.insertRangeMirror s e).1.Inv
+    ∧ (∀ x, x < 65536 → (b.insertRangeMirror s e).1.test x = ((decide (s ≤ x) && decide (x ≤ e)) || b.test x))
+    ∧ (b.insertRangeMirror s e).2 = (e - s + 1) - b.countIn s e := by
+  have h := BStore.insertRange_mirror_eq_of_inv b hb s e hse he
+  refine ⟨h, BStore.insertRangeExec_eq_mirror b hb s e hse he, ?_⟩
+  rw [h]
+  exact BStore.insertRange_spec b hb s e hse he
+
+/-- non-vacuity: the empty bitset satisfies the invariant; a range over four words runs the middle loop twice -/
+example : BStore.new.Inv := BStore.inv_new
+example : ((BStore.insertRangeMirror ⟨3, [1, 5, 0, 0, 0]⟩ 2 200).1 = ⟨200, [wMax - 2, wMax, wMax, 511, 0]⟩)
+    ∧ (BStore.insertRangeMirror ⟨3, [1, 5, 0, 0, 0]⟩ 2 200).2 = 197 := by decide +kernel
+/-! ### The same theorems for the statement-by-statement mirrors that the driver executes (`Mirror32.lean`)
+`Extend<u32>::extend` keeps `current_container_index` between values of equal key (iter.rs:748-759);
+`remove_smallest` / `remove_biggest` are `position` / `rposition` + `drain` + an indexed call (inherent.rs:755-811),
+and the bitset → array rebuild inside them reads the chunk through `BitmapIter` (container.rs:110-138).  The mirrored
+definitions are proved equal to the ones above in `Lemmas/Mirror32.lean` (`extend_mirror_eq` is unconditional, the
+other two need only the store invariants that `Bitmap.WF` contains). -/
+theorem C01_extend_mirror (b : Bitmap) (h : b.WF) (vs : List Nat) (hvs : ∀ v ∈ vs, v < 4294967296) :
+    (Bitmap.extendMirror b vs).WF ∧ Bitmap.elems (Bitmap.extendMirror b vs) = Spec.extend (Bitmap.elems b) vs := by
+  rw [Bitmap.extend_mirror_eq]; exact C01_extend b h vs hvs
+theorem C01_removeSmallest_mirror (b : Bitmap) (h : b.WF) (n : Nat) :
+    (Bitmap.removeSmallestMirror b n).WF ∧
+    Bitmap.elems (Bitmap.removeSmallestMirror b n) = Spec.removeSmallest (Bitmap.elems b) n := by
+  rw [Bitmap.removeSmallest_mirror_eq b h.storeInv]; exact C01_removeSmallest b h n
+theorem C01_removeBiggest_mirror (b : Bitmap) (h : b.WF) (n : Nat) :
+    (Bitmap.removeBiggestMirror b n).WF ∧
+    Bitmap.elems (Bitmap.removeBiggestMirror b n) = Spec.removeBiggest (Bitmap.elems b) n := by
+  rw [Bitmap.removeBiggest_mirror_eq b h.storeInv]; exact C01_removeBiggest b h n
+/-- one step through the mirrored definitions -/
+theorem C01_step_mirror (dbg : Bool) (b : Bitmap) (h : b.WF) (op : Op32) (hv : op.Valid) :
+    ∃ b', Bitmap.stepMirror dbg b op = some (b', (Spec.step (Bitmap.elems b) op).2) ∧ b'.WF ∧
+      Bitmap.elems b' = (Spec.step (Bitmap.elems b) op).1 := by
+  rw [Bitmap.step_mirror_eq dbg b h op]; exact C01_step dbg b h op hv
+/-- on every history from a well-formed value the mirrored run is the run of the first model -/
+theorem C01_run_mirror_eq (dbg : Bool) (ops : List Op32) : ∀ (b : Bitmap), b.WF → (∀ op ∈ ops, op.Valid) →
+    Bitmap.runMirror dbg b ops = Bitmap.run dbg b ops := by
+  induction ops with
+  | nil => intro b _ _; rfl
+  | cons op ops ih =>
+    intro b h hv
+    obtain ⟨b1, s1, w1, _⟩ := C01_step dbg b h op (hv op (List.mem_cons_self ..))
+    simp only [Bitmap.runMirror, Bitmap.run, Bitmap.step_mirror_eq dbg b h op, s1]
+    rw [ih b1 w1 (fun o ho => hv o (List.mem_cons_of_mem _ ho))]
+/-- **Every history, through the mirrored definitions.** -/
+theorem C01_history_mirror (dbg : Bool) (ops : List Op32) (hv : ∀ op ∈ ops, op.Valid) :
+    ∃ b, Bitmap.runMirror dbg Bitmap.new ops = some (b, (Spec.run [] ops).2) ∧ b.WF ∧
+      Bitmap.elems b = (Spec.run [] ops).1 := by
+  rw [C01_run_mirror_eq dbg ops Bitmap.new C01_new.1 hv]; exact C01_history dbg ops hv
+/-- non-vacuity of the mirrors: the cached index is used (two values of key 0, a key change, key 0 again);
+    `position` / `rposition` drop a whole chunk and cut into the next one -/
+example : Bitmap.elems (Bitmap.extendMirror [] [5, 3, 70000, 4]) = [3, 4, 5, 70000] ∧
+    Bitmap.elems (Bitmap.removeBiggestMirror (Bitmap.extendMirror [] [5, 3, 70000, 4]) 2) = [3, 4] ∧
+    Bitmap.elems (Bitmap.removeSmallestMirror (Bitmap.extendMirror [] [5, 3, 70000, 4]) 2) = [5, 70000] := by
+  decide +kernel
+/-- non-vacuity of the container-level mirror (bitset → array rebuild through `BitmapIter`): a bitset satisfying
+    `BStore.Inv`, evaluated through the equality theorem (a kernel evaluation of a full `BitmapIter` drain costs
+    ≈ 40 s because the word scan of `next` is re-evaluated on the list model) -/
+example : (⟨0, .bitmap { len := 4, bits := 7 :: 0 :: 2 :: List.replicate 1021 0 }⟩ : Container).store.Inv ∧
+    (Container.removeSmallestMirror ⟨0, .bitmap { len := 4, bits := 7 :: 0 :: 2 :: List.replicate 1021 0 }⟩ 1).store
+      = .array [1, 2, 129] := by
+  have hinv : (⟨0, .bitmap { len := 4, bits := 7 :: 0 :: 2 :: List.replicate 1021 0 }⟩ : Container).store.Inv :=
+    ⟨by decide +kernel, by decide +kernel, by decide +kernel⟩
+  refine ⟨hinv, ?_⟩
+  rw [Container.removeSmallest_mirror_eq _ hinv]
+  decide +kernel
 
 end Roaring.C01
